@@ -31,7 +31,16 @@ PROPS["C18"] = dict(
          "{h,n,r} to depth 4 (thorough 5) that contains a Reset). A Reset of the mixer made while some source still has a failure to deliver is not judged (neither its result nor which sources it asked), and from then until the "
          "next Reset made when NO source has a failure left the HasNext/Next calls of the program are executed but not compared and the selector does not check its arguments: the state after a failed Reset is undocumented. "
          "A Reset made when no source has a failure left is a Reset of two resettable inputs: it must return nil and restart the merge completely, whatever was read since the failed one; if the program ends in the unjudged "
-         "state the harness calls Reset until that point is reached (every Reset of the mixer passes at least one pending failure on; bounded at 16 / 64 calls, a tree that never gets there is not judged), then the full drain follows. non-trivial = the selector decided a tie between equal heads, or exactly one "
+         "state the harness calls Reset until that point is reached (every Reset of the mixer passes at least one pending failure on; bounded at 16 / 64 calls, a tree that never gets there is not judged), then the full drain follows. RESET RUNS: the letter r may carry a repeat count (r256 = 256 consecutive Reset calls, every one of them judged like a single r), so that programs with hundreds or tens of thousands of Resets in a row stay short: "
+         "one Reset in four of the rapid programs (main unit, sessions, element types) is a run whose length is drawn from {1..4, 255, 256, 257, 511, 512, 513, 1024, 65535, 65536, 65537} (the neighbourhoods of the points where a pass counter 8 or 16 bits wide comes round again), "
+         "wherever the program puts it - after a HasNext that loaded the look-ahead, after a Next, after another run, after the end; exhaustive part 5: every program over the calls {h, n, r, r255, r256, r257} (thorough: also r512, r65536) to depth 3 (thorough 4; programs with r65536 to depth 3) "
+         "that contains a run x all input pairs over {1,2} of length 0..2 x 5 selectors x slice/slice and slice/disparity (classes consecutive_successful_resets_*). "
+         "ELEMENT TYPES (unit element_types, third case type): Mixer[E] for element types whose ZERO VALUE is a legal element - Mixer[any] and Mixer[error] (nil interface), Mixer[*T] (nil pointer), Mixer[string] (empty string); the main runner merges ints and never uses 0 as an element. "
+         "An input is a sequence over {zero value, 1, 2, ...} served from a resettable slice iterator; ordinary elements carry (value, side, index), the zero value cannot carry a tag; the selector (<, <=, >, always-first, always-second) compares ranks, rank(v)=2v and rank(zero value)=ZeroRank, "
+         "so the zero value sorts first (0), ties with a value (even), lies strictly between two values (odd) or sorts last (1000); the same reference merge, head check of the selector and HasNext/Next/Reset oracles apply. Exhaustive: all pairs of sequences over {zero,1,2} of length 0..2 (thorough 0..3) x 4 element types x "
+         "selectors x ranks {0,2,3,4,1000} x every program over {h,n,r} to depth 2 (thorough 3); rapid: lengths 0..40, alphabets 1..20, zero values nowhere / at one place (first, last, anywhere) / at every fourth place on average / everywhere, sorted under the selector in 60% of the draws, programs with Reset runs "
+         "(classes element_type:<type>:*; non-trivial there = the selector had to decide about a zero-value head). "
+         "non-trivial = the selector decided a tie between equal heads, or exactly one "
          "input is empty, or a successful Reset happened midway / on a loaded look-ahead / after the end, or HasNext was "
          "called twice in a row, or a lying final HasNext was consumed, or Init was called again while a look-ahead was pending, or a Reset accepted by both sources followed a failed one; distinct = FNV hash of the whole case. "
          "SESSIONS (units sessions_*): 'any two input iterators' includes a Mixer as an input (mixer_test.go merges a mixer with a slice) and iterators "
@@ -68,6 +77,7 @@ PROPS["C18"] = dict(
         dict(name="exhaustive", run="^TestC18Exhaustive$", shards=(16, 16), timeout=(200, 1200)),
         dict(name="rapid", run="^TestC18Rapid$", checks=(10000, 200000), shards=(2, 16), timeout=(200, 1200)),
         dict(name="sessions_exhaustive", run="^TestC18ExhaustiveSessions$", shards=(8, 16), timeout=(200, 1200)),
+        dict(name="element_types", run="^TestC18ElementTypes$", checks=(6000, 60000), shards=(2, 8), timeout=(200, 1200)),
         dict(name="sessions_rapid", run="^TestC18RapidSessions$", checks=(4000, 20000), shards=(2, 16), timeout=(200, 1200), shrinktime="10s"),
     ],
 )
